@@ -70,6 +70,7 @@ class VTerm:
         fill=SENT,
         default_bg=None,
         keep_payload=False,
+        strict_strings=None,
     ):
         assert personality in PERSONALITIES
         self.rows, self.cols = rows, cols
@@ -78,6 +79,11 @@ class VTerm:
         self.lm = margin
         self.default_bg = default_bg  # only used by colour interpretation helpers
         self.keep_payload = keep_payload
+        # Graphics-capable terminals keep consuming an unterminated APC/OSC/DCS string
+        # until ST (or BEL for OSC) arrives -- an ESC that does not start ST is data
+        # (this is what the library's interrupted-draw handlers exist for); xterm-like
+        # terminals abandon the string at any ESC.
+        self.strict_strings = (personality != "other") if strict_strings is None else strict_strings
         self.grid = [[fill] * cols for _ in range(rows)]
         self.touched = set()
         self.r = self.c = 0
@@ -216,6 +222,10 @@ class VTerm:
                     i += 1
                     self.state = "g"
                     self._string(st[0], "".join(self.buf), "ST")
+                elif self.strict_strings:
+                    # still inside the string: the ESC was data
+                    self.buf.append("\x1b")
+                    self.state = st[0]
                 else:
                     # ESC not followed by '\': the string is abandoned and the ESC
                     # starts a new sequence (xterm/VTE behaviour)
